@@ -73,7 +73,8 @@ def world_phase(rep, exe_impl, exe_model):
             for combo in itertools.product(kinds, repeat=d):
                 if d == 3 and rep.tier == "quick" and rng.random() < 0.6:
                     continue
-                left = rng.choice([60, 300, 7])
+                # (also quiet periods of weeks: beyond 2147483 s the wait does not fit poll()'s milliseconds and is capped)
+                left = rng.choice([60, 300, 7, 2147500, 3000000, 4294990])
                 slots = []
                 for i, k in enumerate(combo):
                     kw = dict(c17.KINDS[k])
